@@ -201,9 +201,10 @@ def mk_cond_lemma(thumb):
             it = pre.it()
             itcond = z3.If(P.bits(it, 3, 0) != 0, P.bits(it, 7, 4), P.BV(0b1110, 4))
             if arm.opcode_len == 16:
-                cond = z3.If(P.bits(op, 15, 12) == 0b1101, P.bits(op, 11, 8), itcond)
+                cond = z3.If(z3.And(P.bits(op, 15, 12) == 0b1101, P.bits(op, 11, 9) != 0b111), P.bits(op, 11, 8), itcond)
             else:
-                isb = z3.And(P.bits(op, 31, 27) == 0b11110, P.bits(op, 15, 14) == 0b10, z3.Not(P.bit(op, 12)))
+                isb = z3.And(P.bits(op, 31, 27) == 0b11110, P.bits(op, 15, 14) == 0b10, z3.Not(P.bit(op, 12)),
+                           P.bits(op, 25, 23) != 0b111)
                 cond = z3.If(isb, P.bits(op, 25, 22), itcond)
             unp = z3.BoolVal(False)
         n, z, c, v = pre.nzcv()
